@@ -248,14 +248,42 @@ fn bracket_near(toks: &Option<Vec<Tok>>, i: usize) -> bool {
 }
 
 struct Verdict {
+    /// (text, cursor) of the call made just before on the shared instance, if that matters
+    previous: Option<(String, usize)>,
     fail: Option<(String, String)>,
     nontrivial: bool,
     highlighted: bool,
 }
 
+thread_local! {
+    /// one highlighter instance serves every call of a worker, as one instance serves a
+    /// whole REPL session: the answer must not depend on earlier calls
+    static SHARED_HL: ReplHighlighter = ReplHighlighter::new();
+    static PREVIOUS: std::cell::RefCell<(String, usize)> = const { std::cell::RefCell::new((String::new(), 0)) };
+}
+
 fn check_one(text: &str, toks: &Option<Vec<Tok>>, cursor: usize, flags: &str) -> Verdict {
-    let hl = ReplHighlighter::new();
-    let mut v = Verdict { fail: None, nontrivial: false, highlighted: false };
+    let v = SHARED_HL.with(|hl| check_with(hl, text, toks, cursor, flags));
+    let prev = PREVIOUS.with(|p| std::mem::replace(&mut *p.borrow_mut(), (text.to_string(), cursor)));
+    if v.fail.is_some() {
+        // does a fresh instance give the right answer? then the defect is history dependence
+        let fresh = check_with(&ReplHighlighter::new(), text, toks, cursor, flags);
+        if fresh.fail.is_none() {
+            let mut v = v;
+            v.previous = Some(prev.clone());
+            let (_, detail) = v.fail.take().unwrap();
+            v.fail = Some((
+                format!("C20|depends-on-earlier-calls{}", flags),
+                format!("after highlight({:?}, {}) on the same highlighter instance: {} (a fresh instance answers correctly)", prev.0, prev.1, detail),
+            ));
+            return v;
+        }
+    }
+    v
+}
+
+fn check_with(hl: &ReplHighlighter, text: &str, toks: &Option<Vec<Tok>>, cursor: usize, flags: &str) -> Verdict {
+    let mut v = Verdict { previous: None, fail: None, nontrivial: false, highlighted: false };
     let nbr = toks
         .as_ref()
         .map(|t| t.iter().filter(|t| t.kind != Kind::Other).count())
@@ -451,7 +479,12 @@ impl Prop for C20 {
                         }
                     }
                     if let Some((sig, detail)) = v.fail {
-                        ctx.report("exh", json!({"text": text, "cursor": cursor}), &sig, &detail);
+                        let mut payload = json!({"text": text, "cursor": cursor});
+                        if let Some((pt, pc)) = &v.previous {
+                            payload["previous_text"] = json!(pt);
+                            payload["previous_cursor"] = json!(pc);
+                        }
+                        ctx.report("exh", payload, &sig, &detail);
                     }
                 }
                 if strings % 5000 == 1 {
@@ -480,6 +513,12 @@ impl Prop for C20 {
                 }
             }
             _ => {
+                if let Some(pt) = payload["previous_text"].as_str() {
+                    let pc = payload["previous_cursor"].as_u64().unwrap_or(0) as usize;
+                    SHARED_HL.with(|hl| {
+                        let _ = guard(|| hl.highlight(pt, pc).to_string());
+                    });
+                }
                 let text = payload["text"].as_str().unwrap_or("").to_string();
                 let cursor = payload["cursor"].as_u64().unwrap_or(0) as usize;
                 // re-derive lexemes from the text (greedy over the alphabet)
